@@ -18,6 +18,10 @@ CHECKS = {
    technique="explicit-state BFS over histories; a request menu (valid, invalid per constraint class, mixed, with/without replace intent, dry run or not) is executed from every reached state; device calls, cache Modify calls and canonical stores compared; dry runs re-executed for real on a replica of the same state",
    text="From every state reachable within the depth bound the whole request menu is executed on the real Datastore. For every rejected or dry-run request the recording device must see no Set call, the cache decorator no Modify call, and intended store, running store and device must be identical before and after; an invalid replace intent must surface as error or intent errors; for every successful dry run the same request is run for real on a fresh replica of the same state and the reported updates/deletes must equal what the device receives.",
    note="Bounded by depth, alphabet and the request menu printed in the evidence; invalid fragments violate one constraint class each independent of the state."),
+ "C04": dict(level="model_checking", engine=E1, design="DESIGN.md §3 C04",
+   technique="explicit-state BFS over histories over a constraint-exercising alphabet with a hand-written reference validator as oracle, differential re-submission of every resulting configuration as one intent, one search per validator switch, and exhaustive enumeration of partitions x priority orders of target configurations",
+   text="Every transition's accept/reject verdict is compared with a ~100-line reference validator for the universe's constraints (mandatory, leafref, must, range, length, pattern, min/max-elements) evaluated on the merge that results; every resulting configuration is also submitted as a single intent to an empty datastore and must get the same verdict; the search is repeated with each validator switch off (the class it governs excluded from the verdict) and with sequential validation; all partitions of 7 target configurations into up to 3 (quick) / 4 (thorough) intents with every priority order must get the verdict of the unsplit configuration.",
+   note="Bounded by depth/alphabet; reference validator covers only the constraints of /verif/schema; type-level refusals at conversion time are not judged; switch-off searches are one level shallower."),
  "C05": dict(level="model_checking", engine=E1, design="DESIGN.md §3 C05",
    technique="explicit-state BFS over histories; every transaction of the alphabet is executed from every reached state and ended by TransactionCancel and by real timer expiry (1 ms timeout), intended store and device compared with the pre-transaction snapshot",
    text="From every state reachable within the depth bound every transaction of the alphabet (create, change, shrink, re-prioritise, delete, two intents; ruling and shadowed) is applied and then cancelled, and separately left to expire; afterwards the canonical intended store must equal the snapshot taken before the transaction and every path the transaction sent to the device must be back at its previous value or absence.",
@@ -63,7 +67,7 @@ m = {
    "add_only": True,
  },
  "engines": [
-   {"name": E1, "path": "harness/h/explore.go", "serves_properties": [k for k, v in CHECKS.items() if v["engine"] == E1],
+   {"name": E1, "path": "harness/h/explore.go", "serves_properties": sorted(k for k, v in CHECKS.items() if v["engine"] == E1),
     "kind_free_text": "level-synchronous explicit-state search; successor = replay of the shortest history on a fresh real Datastore/cache instance + one operation; canonical state key without timestamps; per-property oracle plug-ins"},
  ],
  "checks": checks,
